@@ -6,7 +6,7 @@ tie:    engine correspondence: recording probe plug-ins (every subset of overrid
         between / after the built-in rules, enabled and disabled) — real call log vs Lean model log.
 oracle: the life-cycle shape evaluated directly on the real log from the file's text and the real token stream.
 """
-import json
+import json, os
 import vlib, implib, enginelib as E
 import c07
 
@@ -67,17 +67,102 @@ CORPUS = [([dict(ALL, id="ZZZ999"), dict(ALL, id="AAA000", enabled=False)], DOCS
           ([dict(ALL, id="MDM500", line=False, done=False), dict(ALL, id="AAA000", start=False)], DOCS[12:], False)]
 
 
+# ---------------------------------------------------------------------------------------------------------------------------------
+# fix mode: "every pass a rule takes part in has this same shape" — the token part, with the BUILT-IN token fixers enabled so that the
+# passes after a token-level fix (regenerate, re-tokenize, line pass) are really entered; the probe-only fix-mode correspondence of
+# C08-C10 / C15 (tools/fixlib.py) disables the built-in rules and never reaches the re-tokenization.
+FIX_DOCS = ["# Title\n\n### Skipped level\n\ntext\n", "* a\n+ b\n- c\n", "some ** bold ** text\n", "# T\n\n1. a\n1. b\n3. c\n",
+            "#  Two spaces\n\ntext  \n", "# Clean\n\ntext\n", "- a\n\n\n\n- b\n", "```text\ncode\n```\n\n~~~text\nmore\n~~~\n",
+            "# T\n\n***\n\n---\n", "> # Title\n>\n> ### Skipped\n", "no final newline *  x  *"]
+
+
+def fix_lifecycle(ctx):
+    """A recording fix-capable plug-in (every callback, no trigger) beside the default rule set in REAL `fix` runs.  Oracle, per pass of the
+    recorder's log that contains token callbacks: the token sequence is the parser's complete stream (end-of-stream token included) of one
+    of the versions of the file that the run really read (every content a FileSourceProvider was opened on, recorded by a harness-level
+    wrapper), in order, each token once; and the log is a sequence of passes S T* L* D.  The line part of a fix pass departs from the
+    scan shape in ways recorded as F-LIFE (line number 0, second start) and is compared by the FixSched correspondence, not here."""
+    import fixlib
+    from pymarkdown.general import source_providers as SP
+    seen, fails, evals, passes = [], [], 0, 0
+    orig = SP.FileSourceProvider.__init__
+
+    def spy(self, file_to_open, *a, **k):
+        try:
+            with open(file_to_open, encoding="utf-8", newline="") as fh:
+                seen.append(fh.read())
+        except Exception:
+            pass
+        return orig(self, file_to_open, *a, **k)
+
+    SP.FileSourceProvider.__init__ = spy
+    try:
+        with implib.workspace() as ws:
+            for doc in FIX_DOCS:
+                for level in (1, 9):
+                    sp = dict(id="ZZR777", level=level, fixes=True, start=True, token=True, line=True, done=True, doneNl=False, trig="", repl="")
+                    d = os.path.join(ws, "fl")
+                    import shutil
+                    shutil.rmtree(d, ignore_errors=True)
+                    os.makedirs(d)
+                    implib.write(os.path.join(d, "doc.md"), doc)
+                    seen.clear()
+                    log = fixlib.fix_log()
+                    log.clear()
+                    code, out, err = vlib.run_main(["--add-plugin", fixlib.write_probe(os.path.join(ws, "flp"), sp), "fix", "doc.md"], cwd=d)
+                    evals += 1
+                    mine = [tuple(e) for e in log if e[0] == "ZZR777"]
+                    case = {"fix_document": doc, "recorder_level": level}
+                    if code not in (0, 3):
+                        continue            # a failing fix run is C15's / C09's business
+                    streams = {}
+                    for v in [doc] + list(seen):
+                        if v not in streams:
+                            try:
+                                streams[v] = [a for a, _, _ in E.real_tokens(v)]
+                            except Exception:
+                                streams[v] = None
+                    cur, groups = None, []
+                    for e in mine:
+                        if e[1] == "S":
+                            cur = []
+                            groups.append(cur)
+                        elif e[1] == "T":
+                            if cur is None:
+                                fails.append((case, "fix-pass-token-before-start", str(e)[:120]))
+                                break
+                            cur.append(e[2])
+                    for g in groups:
+                        if not g:
+                            continue
+                        passes += 1
+                        if not any(s is not None and s == g for s in streams.values()):
+                            near = min((s for s in streams.values() if s), key=lambda s: abs(len(s) - len(g)), default=[])
+                            k = next((j for j, (a, b) in enumerate(zip(g, near)) if a != b), min(len(g), len(near)))
+                            fails.append((case, "fix-pass-token-stream-not-a-file-version",
+                                          {"pass_tokens": len(g), "nearest_stream_tokens": len(near), "first_difference_at": k,
+                                           "got": g[k] if k < len(g) else None, "expected": near[k] if k < len(near) else None}))
+                            break
+    finally:
+        SP.FileSourceProvider.__init__ = orig
+    for case, sym, det in fails[:5]:
+        ctx.report(case, sym, {"detail": det, "oracle": "fix mode: the tokens a rule receives in a pass are the parser's complete stream (end-of-stream included) of a version of the file the run read"})
+    return {"fix_runs": evals, "passes_with_tokens_checked": passes, "failures": len(fails),
+            "rule": "11 documents (token-level fixes by MD001 MD004 MD037 MD029 MD019 MD009 MD012 MD048 MD035, none, no final newline) x recorder fix level {1, 9}, default rules enabled", "exhaustive": True}
+
+
 def run(ctx):
     ctx.lean_stage([], ["Verif.Props.C14"])
     stats, samples = c07.engine_correspondence(ctx, 80 if ctx.quick() else 1200, tag="lifecycle", gen=gen, corpus=CORPUS,
                                                extra_check=lifecycle_oracle)
+    fixstats = fix_lifecycle(ctx)
     if ctx.broken and not ctx.violations:
         ctx.violation({"oracle": "Verif.Props.C14 / life-cycle correspondence broken; no failing scenario found"}, no_input=True)
-    ctx.assumptions += ["scan mode only in this part; the fix-mode pass shape is modelled in FixSched (finding F-LIFE)",
+    ctx.assumptions += ["the engine correspondence is scan mode; fix mode: the token part of every pass is checked directly (fix_lifecycle), the line part is modelled in FixSched (finding F-LIFE)",
                         "token identity is compared through str(token)"]
     stats["rule"] = ("probe plug-ins with random subsets of overridden callbacks, enabled/disabled, 1-3 files from a pool incl. empty, one-line, "
                      "no-final-newline, pragma-only documents; non-trivial = at least one report or error; every scenario checks the complete call log")
-    ctx.write_evidence({"correspondence": stats, "samples": samples})
+    ctx.write_evidence({"correspondence": stats, "fix_lifecycle": fixstats, "samples": samples})
 
 
 def replay(ctx, path):
